@@ -93,8 +93,10 @@ def stage_repo(dst):
 class LibBuild:
     """One build configuration of libskinny.a through the repository's src/Makefile."""
 
-    def __init__(self, name="shipped", cc="gcc", common="-O3 -Wall -Wextra", defs=(),
-                 vec128="-msse2", vec256="-mavx2", maxbe=2, hooks=True, std="-std=c99"):
+    def __init__(self, name="shipped", cc="gcc", common=None, defs=(),
+                 vec128=None, vec256=None, maxbe=2, hooks=True, std=None):
+        # common / vec128 / vec256 / std left at None are taken from the staged tree's own options.mak at build
+        # time, so that what is checked is what the repository's build files produce
         self.name, self.cc, self.common = name, cc, common
         self.defs = list(defs)
         self.vec128, self.vec256, self.maxbe = vec128, vec256, maxbe
@@ -118,6 +120,19 @@ class LibBuild:
         for sub in ("src", "include"):
             shutil.copytree(os.path.join(stage, "tree", sub), os.path.join(root, sub))
         shutil.copy(os.path.join(stage, "tree", "options.mak"), root)
+        mk = {}
+        for line in open(os.path.join(root, "options.mak")):
+            m = re.match(r"^([A-Z0-9_]+)\s*(\+?)[:]?=\s*(.*?)\s*$", line)
+            if m:
+                mk[m.group(1)] = (mk.get(m.group(1), "") + " " + m.group(3)).strip() if m.group(2) else m.group(3)
+        if self.common is None:
+            self.common = mk.get("COMMON_CFLAGS", "-O3 -Wall -Wextra")
+        if self.vec128 is None:
+            self.vec128 = mk.get("VEC128_CFLAGS", "-msse2")
+        if self.vec256 is None:
+            self.vec256 = mk.get("VEC256_CFLAGS", "-mavx2")
+        if self.std is None:
+            self.std = mk.get("STDC_CFLAGS", "-std=c99")
         common = " ".join([self.common] + self.all_defs())
         cmd = ["make", "-C", os.path.join(root, "src"), "-j%d" % jobs, "CC=" + self.cc,
                "COMMON_CFLAGS=" + common, "STDC_CFLAGS=" + self.std,
